@@ -806,6 +806,21 @@ void applyEquivalenceMapToModel(const EquivalenceMap &map, const ModelPtr &model
 NameList componentNames(const ModelPtr &model);
 NameList unitsNamesUsed(const ComponentPtr &component);
 EquivalenceMap rebaseEquivalenceMap(const EquivalenceMap &map, const IndexStack &originStack, const IndexStack &destinationStack);
+
+/**
+ * @brief Get the clone of an import source, creating it on first use.
+ *
+ * Return the clone of @p importSource recorded in @p importSourceMap.  If there is
+ * none yet, clone @p importSource, record the clone in the map and return it.  Entities
+ * that share an import source before being cloned thus share one import source afterwards,
+ * and no clone shares an import source with its original.
+ *
+ * @param importSource The import source of the entity being cloned.
+ * @param importSourceMap The map from import sources to their clones for the current clone operation.
+ *
+ * @return The clone of @p importSource.
+ */
+ImportSourcePtr clonedImportSource(const ImportSourcePtr &importSource, ImportSourceMap &importSourceMap);
 std::vector<UnitsPtr> unitsUsed(const ModelPtr &model, const ComponentConstPtr &component);
 ComponentNameMap createComponentNamesMap(const ComponentPtr &component);
 
